@@ -70,6 +70,7 @@ theorem dzf_swap {s : St} (h : DZF s) : DZF s.swap := ⟨h.dzb, h.dza⟩
 def Ev.putFault : Ev → Bool
   | .step _ .put => true
   | .online _ .put => true
+  | .steponl _ .put => true
   | _ => false
 
 /-! ### events of one follower (A) -/
@@ -128,18 +129,18 @@ theorem peerpost_of_evpost {s s0 s' : St} {o : Out} {e : Ev} {f : Fault} (h : Ev
       · rw [← e2, ← hf.1.stopped2, ← hf.2.2.2.1]; exact f.2.2.2.2.1
       · rw [← hf.1.chan2, ← hf.2.2.2.2]; exact f.2.2.2.2.2
 
-local macro "plain_rfl" : term => `(⟨⟨rfl, rfl, rfl, rfl, rfl, rfl, rfl, rfl, rfl⟩, rfl, rfl, rfl, rfl⟩)
+local macro "plain_rfl" : term => `(⟨⟨rfl, rfl, rfl, rfl, rfl, rfl, rfl, rfl, rfl, rfl⟩, rfl, rfl, rfl, rfl⟩)
 
 theorem peerpost_same {s s' : St} {o : Out} {e : Ev} (hi : InvA s') (hb : s'.chan = .ready → s'.stream ≠ .none)
     (hs : s'.stopped = true → s'.chan = .init)
     (hu : s'.born = false → s'.stopped = true ∧ s'.cons = -1 ∧ s'.gack = -1)
-    (ho : o = .idle ∨ o = .noreplicator ∨ o = .suspended ∨ o = .gone)
+    (ho : o = .idle ∨ o = .noreplicator ∨ o = .suspended ∨ o = .gone ∨ o = .parked)
     (e1 : s'.gack = s.gack) (e2 : s'.F = s.F ∨ s'.F = Log.empty) (e3 : s'.dz = s.dz) (e4 : s'.L = s.L) (e5 : s'.cons = s.cons)
     (hf : Plain s s') : PeerPost s s' o e := by
   refine ⟨hi, hb, hs, hu, ⟨?_, ?_⟩, fun _ => by rw [e1]; simp, fun _ => Or.inl e1, by rw [e1]; exact Int.le_refl _, ?_,
     fun _ => by rw [e1]; intros; omega, ?_, Or.inl hf, fun d _ => by rw [e3]; exact d⟩
-  · rcases ho with x | x | x | x <;> rw [x] <;> simp
-  · intro _ _; rcases ho with x | x | x | x <;> rw [x] <;> simp
+  · rcases ho with x | x | x | x | x <;> rw [x] <;> simp
+  · intro _ _; rcases ho with x | x | x | x | x <;> rw [x] <;> simp
   · rcases e2 with x | x
     · rw [x]; exact Or.inl rfl
     · rw [x]; exact Or.inr (Or.inr rfl)
@@ -156,6 +157,18 @@ theorem peerEv_spec (cfg : Cfg) (s : St) (e : Ev) (h : InvA s) (hb : s.chan = .r
     (hs : s.stopped = true → s.chan = .init) (hu : s.born = false → s.stopped = true ∧ s.cons = -1 ∧ s.gack = -1) :
     PeerPost s (peerEv cfg s e).1 (peerEv cfg s e).2 e := by
   have hnb : s.stopped = false → s.born = false → False := fun a b => by rw [(hu b).1] at a; cases a
+  have honl : ∀ (f : Fault), (e.putFault = false → f ≠ .put) → PeerPost s (onlineEv cfg s f).1 (onlineEv cfg s f).2 e := by
+    intro f hpf
+    unfold onlineEv
+    dsimp only
+    split
+    · exact peerpost_same (invA_mk h rfl rfl rfl rfl rfl rfl rfl rfl) hb hs hu (Or.inr (Or.inl rfl)) rfl (Or.inl rfl) rfl rfl rfl plain_rfl
+    · rename_i hst
+      have hst' : s.stopped = false := by simpa using hst
+      split
+      · exact peerpost_of_evpost (replicaStep_spec cfg _ f (invA_mk h rfl rfl rfl rfl rfl rfl rfl rfl) hst')
+          hst' rfl rfl rfl id plain_rfl rfl (hnb hst') hpf
+      · exact peerpost_same (invA_mk h rfl rfl rfl rfl rfl rfl rfl rfl) hb hs hu (Or.inl rfl) rfl (Or.inl rfl) rfl rfl rfl plain_rfl
   cases e with
   | step w f =>
     simp only [peerEv]
@@ -192,15 +205,25 @@ theorem peerEv_spec (cfg : Cfg) (s : St) (e : Ev) (h : InvA s) (hb : s.chan = .r
     exact peerpost_same (invA_mk h rfl rfl rfl rfl rfl rfl rfl rfl) hb hs hu (Or.inl rfl) rfl (Or.inl rfl) rfl rfl rfl plain_rfl
   | online w f =>
     simp only [peerEv]
+    exact honl f (by intro x y; subst y; simp [Ev.putFault] at x)
+  | steponl w f =>
+    simp only [peerEv]
     split
-    · exact peerpost_same (invA_mk h rfl rfl rfl rfl rfl rfl rfl rfl) hb hs hu (Or.inr (Or.inl rfl)) rfl (Or.inl rfl) rfl rfl rfl plain_rfl
-    · rename_i hst
-      have hst' : s.stopped = false := by simpa using hst
-      split
-      · refine peerpost_of_evpost (replicaStep_spec cfg _ f (invA_mk h rfl rfl rfl rfl rfl rfl rfl rfl) hst')
-          hst' rfl rfl rfl id plain_rfl rfl (hnb hst') ?_
+    · rename_i hc
+      have hst' : s.stopped = false := hc.1
+      have hi0 : InvA { s with chan := .failure, susp := false, live := true } :=
+        invA_mk (invc_notready (ch' := .failure) (st' := s.stream) (dz' := s.dz) h (fun x => by cases x)) rfl rfl rfl rfl rfl rfl rfl rfl
+      cases hwk : cfg.wake with
+      | true =>
+        simp only [if_true]
+        refine peerpost_of_evpost (replicaStep_spec cfg _ f hi0 hst') hst' rfl rfl rfl id plain_rfl rfl (hnb hst') ?_
         intro x y; subst y; simp [Ev.putFault] at x
-      · exact peerpost_same (invA_mk h rfl rfl rfl rfl rfl rfl rfl rfl) hb hs hu (Or.inl rfl) rfl (Or.inl rfl) rfl rfl rfl plain_rfl
+      | false =>
+        simp only [Bool.false_eq_true, if_false]
+        exact peerpost_same (invA_mk (invc_notready (ch' := .failure) (st' := s.stream) (dz' := s.dz) h (fun x => by cases x)) rfl rfl rfl rfl rfl rfl rfl rfl)
+          (fun x => by cases x) (fun x => by rw [hst'] at x; cases x) hu
+          (Or.inr (Or.inr (Or.inr (Or.inr rfl)))) rfl (Or.inl rfl) rfl rfl rfl plain_rfl
+    · exact honl f (by intro x y; subst y; simp [Ev.putFault] at x)
   | join w =>
     simp only [peerEv]
     have hl := h.lint
@@ -606,6 +629,9 @@ theorem next_spec (cfg : Cfg) (s : St) (e : Ev) (h : Full s) :
     | join w => cases w <;> simp only [Ev.who]
                 · exact next_peer_a cfg s _ h hg' rfl
                 · exact next_peer_b cfg s _ h hg' rfl
+    | steponl w f => cases w <;> simp only [Ev.who]
+                     · exact next_peer_a cfg s _ h hg' rfl
+                     · exact next_peer_b cfg s _ h hg' rfl
     | append m =>
       simp only [Ev.who]
       refine ⟨?_, fun _ n => ?_, fun _ _ _ d => ?_, by simp, (fun x => by cases x), (fun x => by cases x), fun _ _ => ?_, (fun x => by cases x), hgk _ _⟩
